@@ -23,7 +23,7 @@ def run(ctx):
             def sel(sc):
                 # paths whose last statement is the failing one (its effect is what this property is about)
                 return sc["out"] == "error"
-            st = storelib.StoreRun(ctx, name, over, sample=sample, select=sel).run(pool, storelib.default_violation(ctx), cov)
+            st = storelib.StoreRun(ctx, name, dict(over, EmitSel='"error"'),  sample=sample, select=sel).run(pool, storelib.default_violation(ctx), cov)
             kinds[name] = st["replayed"]
     finally:
         pool.close()
